@@ -111,7 +111,13 @@ func (r *Runner) SetThisValue(key string, value interface{}) {
 	r.this[key] = value
 }
 
-func (r *Runner) Resolve(ctx context.Context, v Expression) (interface{}, error) {
+func (r *Runner) Resolve(ctx context.Context, v Expression) (value interface{}, err error) {
+	defer func() {
+		if capture := recover(); capture != nil {
+			value = nil
+			err = fmt.Errorf("formula evaluation failed: %v", capture)
+		}
+	}()
 	res, err := r.resolve(ctx, v)
 	if err != nil {
 		return nil, err
